@@ -1,13 +1,15 @@
 import GuppyVerif.Model.EmuConfig
 import GuppyVerif.Util.Sexp
 /-! Line-protocol driver for C28.  Request: `<fixed 0|1> <n_qubits> (<op> ...)` with
-    op ::= (newsim <kind> <seed|none>) | (run i) | (derive i <d>)
+    op ::= (newsim <kind> <seed|none>) | (run i) | (derive i <d>) | (bderive i <bd>) | (build i n)
+    bd ::= (name v|none) (builddir v|none) (verbose 0|1) (arg k v)
     d  ::= (seed v|none) (shots n) (shotoffset n) (shotincrement n) (nqubits n) (nprocesses n) (verbose 0|1)
-           (timeout t|none) (runtime r) (errormodel e) (eventhook h) (simulator sid) statevector coinflip stabilizer
+           (timeout t|none) (progressbar 0|1) (runtime r) (errormodel e) (eventhook h) (simulator sid) statevector coinflip stabilizer
     kind ::= quest | coinflip | stim | c<k>
     Reply: the `run_shots` log, one token per run:
-    `i:kind,simseed,runtime,errormodel,eventhook,nqubits,shots,verbose,timeout,seed,offset,increment,nprocesses`
-    or `invalid`. -/
+    `i:kind,simseed,runtime,errormodel,eventhook,nqubits,shots,verbose,timeout,seed,offset,increment,nprocesses,progressbar,origin`
+    (origin = index of the build call that produced the instance's SeleneInstance, or none), then `||`, then the
+    `selene_sim.build` log, one token per call: `b:name,builddir,verbose,k=v;k=v..`; or `invalid`. -/
 open GuppyVerif GuppyVerif.EmuConfig
 
 def optNat? : Sexp → Option (Option Nat)
@@ -34,16 +36,26 @@ def deriv? : Sexp → Option Deriv
   | .list [.atom "nprocesses", n] => n.asNat?.map .nProcesses
   | .list [.atom "verbose", n] => n.asNat?.map fun b => .verbose (b != 0)
   | .list [.atom "timeout", t] => (optNat? t).map .timeout
+  | .list [.atom "progressbar", n] => n.asNat?.map fun b => .progressBar (b != 0)
   | .list [.atom "runtime", n] => n.asNat?.map .runtime
   | .list [.atom "errormodel", n] => n.asNat?.map .errorModel
   | .list [.atom "eventhook", n] => n.asNat?.map .eventHook
   | .list [.atom "simulator", n] => n.asNat?.map .simulator
   | _ => none
 
+def bderiv? : Sexp → Option BDeriv
+  | .list [.atom "name", v] => (optNat? v).map .name
+  | .list [.atom "builddir", v] => (optNat? v).map .buildDir
+  | .list [.atom "verbose", n] => n.asNat?.map fun b => .verbose (b != 0)
+  | .list [.atom "arg", k, v] => do some (.buildArg (← k.asNat?) (← v.asNat?))
+  | _ => none
+
 def op? : Sexp → Option Op
   | .list [.atom "newsim", k, sd] => do some (.newSim (← kind? k) (← optNat? sd))
   | .list [.atom "run", i] => i.asNat?.map .run
   | .list [.atom "derive", i, d] => do some (.derive (← i.asNat?) (← deriv? d))
+  | .list [.atom "bderive", i, d] => do some (.bderive (← i.asNat?) (← bderiv? d))
+  | .list [.atom "build", i, n] => do some (.build (← i.asNat?) (← n.asNat?))
   | _ => none
 
 def showOpt : Option Nat → String
@@ -53,10 +65,15 @@ def showOpt : Option Nat → String
 def showKind : SimKind → String
   | .quest => "quest" | .coinflip => "coinflip" | .stim => "stim" | .custom c => s!"c{c}"
 
-def showEntry (e : Nat × RunArgs) : String :=
+def showBuild (e : Nat × BuildArgs) : String :=
+  let a := e.2
+  s!"{e.1}:{showOpt a.name},{showOpt a.buildDir},{if a.verbose then 1 else 0}," ++
+    ";".intercalate (a.custom.map fun kv => s!"{kv.1}={kv.2}")
+
+def showEntry (origin : Option Nat) (e : Nat × RunArgs) : String :=
   let a := e.2
   s!"{e.1}:{showKind a.simKind},{showOpt a.simSeed},{a.runtime},{a.errorModel},{a.eventHook},{a.nQubits}," ++
-  s!"{a.shots},{if a.verbose then 1 else 0},{showOpt a.timeout},{showOpt a.seed},{a.shotOffset},{a.shotIncrement},{a.nProcesses}"
+  s!"{a.shots},{if a.verbose then 1 else 0},{showOpt a.timeout},{showOpt a.seed},{a.shotOffset},{a.shotIncrement},{a.nProcesses},{if a.progressBar then 1 else 0},{showOpt origin}"
 
 def handle (line : String) : String :=
   match Sexp.parse ("(" ++ line ++ ")") with
@@ -64,7 +81,9 @@ def handle (line : String) : String :=
     match n.asNat?, ops.mapM op? with
     | some n, some ops =>
       match runOps (f != "0") (initial n) ops with
-      | some s => " ".intercalate (s.log.map showEntry)
+      | some s =>
+        " ".intercalate (s.log.map fun e => showEntry ((s.insts[e.1]?).bind (·.origin)) e) ++ " || " ++
+          " ".intercalate (s.blog.map showBuild)
       | none => "invalid"
     | _, _ => "bad-op"
   | _ => "bad-op"
